@@ -254,6 +254,13 @@ def run(ctx):
         if not fns:
             R.violation('e', 'R6', '%s chaining guard exists' % what, 'chaining:%s:exists' % what,
                         'no function in %s compares previous/next %s under the same-epoch / cross-epoch split' % (SCOPE, what), None)
+    # equality of the chained values is total on their fields (a key differing only in total stake is a different key)
+    for adt, ex in (('mithril_stm::proof_system::concatenation::aggregate_key::AggregateVerificationKeyForConcatenation', {}),
+                    ('mithril_stm::membership_commitment::merkle_tree::commitment::MerkleTreeBatchCommitment',
+                     {'hasher': 'PhantomData', 'leaf_type': 'PhantomData'}),
+                    ('mithril_common::entities::protocol_parameters::ProtocolParameters', {})):
+        ctx.field_cover('e', adt, '<%s as std::cmp::PartialEq>::eq' % adt, ret_consumer=True, exempt=ex, desc='(equality used by the chaining guards)')
+
     # ---------------- (f)
     ctx.relation_gate('f', VC, 'previous.epoch <= certificate.epoch', SCOPE, p_epoch_dir, {'lt', 'eq'},
                       ret_filter=ret_ok_some)
